@@ -645,15 +645,25 @@ func (repo *GoGitRepo) StoreSignedCommit(treeHash Hash, signKey *openpgp.Entity,
 		return "", err
 	}
 
+	// like git itself, never let <, > or a newline into an identity line
+	clean := func(s string) string {
+		return strings.TrimSpace(strings.Map(func(r rune) rune {
+			if r == '<' || r == '>' || r == '\n' {
+				return -1
+			}
+			return r
+		}, s))
+	}
+
 	commit := object.Commit{
 		Author: object.Signature{
-			Name:  cfg.Author.Name,
-			Email: cfg.Author.Email,
+			Name:  clean(cfg.Author.Name),
+			Email: clean(cfg.Author.Email),
 			When:  time.Now(),
 		},
 		Committer: object.Signature{
-			Name:  cfg.Committer.Name,
-			Email: cfg.Committer.Email,
+			Name:  clean(cfg.Committer.Name),
+			Email: clean(cfg.Committer.Email),
 			When:  time.Now(),
 		},
 		Message:  "",
